@@ -373,6 +373,37 @@ pub fn run(run: &Run) {
     run.states_add(sweeps);
     run.set("operand_sweep_cases", json!(sweeps));
     run.set("boundary_values", json!(vals.iter().map(|v| v.0.clone()).collect::<Vec<_>>()));
+    // strings longer than a 16-bit count can express (built by doubling inside the VM) under the length-bounded and indexed opcodes
+    {
+        use OpCode::*;
+        let empty: BTreeMap<u16, RV> = BTreeMap::new();
+        let mut long_cases = 0u64;
+        for k in [15u16, 16, 17] {
+            let build = vec![PushB(vec![7]), Loop(k, 2), Dup, BAppend];
+            let tails: Vec<Vec<OpCode>> = vec![
+                vec![Hash(65535)],
+                vec![Hash(65534)],
+                vec![Hash(32)],
+                vec![BLength],
+                vec![StoreImm(50), pi(65535), LoadImm(50), BRef],
+                vec![StoreImm(50), pi(65536), LoadImm(50), BRef],
+                vec![StoreImm(50), pi(0), pi(65536), LoadImm(50), BSlice, BLength],
+                vec![StoreImm(50), PushB(vec![0; 64]), PushB(vec![1; 32]), LoadImm(50), SigEOk(65535)],
+                vec![StoreImm(50), LoadImm(50), PushB(vec![1; 32]), PushB(vec![0; 64]), SigEOk(65535)],
+                vec![StoreImm(50), PushB(vec![0; 64]), LoadImm(50), PushB(vec![2; 5]), SigEOk(65535)],
+                vec![BtoI],
+                vec![Dup, BAppend, BLength],
+            ];
+            for t in tails {
+                let mut p = build.clone();
+                p.extend(t);
+                run.outcome(&format!("long-string:{}", check_program(run, &p, "empty", &empty, true)));
+                long_cases += 1;
+            }
+        }
+        run.states_add(long_cases);
+        run.set("long_string_programs", json!({"doublings": [15, 16, 17], "cases": long_cases}));
+    }
     let envs = env_conversion(run);
     run.states_add(envs);
     run.set("env_conversion_cases", json!(envs));
